@@ -4,6 +4,7 @@
 (*   "der": {faces, brk, ebrk},              what the harness integrated over (taken from the plan)   *)
 (*   "meas": {"q": [hi, lo], "fin": bool},   measured integral / gross scale, unit 1e-12              *)
 (*   "qerr": int,                            |order 16 - order 32| / gross, unit 1e-12 (capped)       *)
+(*   "qppm": [int, int], "sub": int,         error estimate before / after refinement in 1e-6; level  *)
 (*   "amp": {"big": bool, "q": [hi, lo]}}    one ampere / gross scale, unit 1e-12 (circulation only) *)
 (* The premise and the derived data are re-computed exactly from the logged instance; the expected   *)
 (* value (0, or Sum I*Lk amperes) is computed here and nowhere else.                                 *)
@@ -14,6 +15,12 @@ Trace == ndJsonDeserialize(IOEnv.TRACE_FILE)
 
 TolInt12 == 100000        \* Tol_Int = 1e-7 of the gross scale (DESIGN 3.4), in units of 1e-12
 QErrMax12 == 10000        \* instances whose own quadrature error estimate exceeds 1e-8 are unmeasurable
+\* The laws presuppose a field that is smooth between the supplied breakpoints (all material and switch surfaces are
+\* breakpoints).  Then refining every piece reduces the error estimate by orders of magnitude.  An estimate that stays
+\* above 1e-6 of the gross scale and is not even halved by the refinement means the returned values are not a piecewise
+\* smooth field on that surface / loop (noise, jumps off the documented surfaces): no integral law can hold to 1e-7.
+\* "qppm": <<before, after>> = the two error estimates in units of 1e-6 of the gross scale (never capped)
+NotSmooth(e) == e.sub > 1 /\ e.qppm[2] >= 1 /\ 2 * e.qppm[2] >= e.qppm[1]
 
 Seqify(s) == [i \in 1..Len(s) |-> s[i]]
 V3(v) == <<v[1], v[2], v[3]>>
@@ -35,6 +42,7 @@ FluxVerdict(e) ==
      ELSE IF Seqify(e.der.faces) # Faces(ch, lo, hi, full) THEN <<"machinery", "Faces">>
      ELSE IF \E k \in 1..3 : Range(e.der.brk[k]) # CellBreaks(scene, ch, lo, hi)[k] THEN <<"machinery", "Breaks">>
      ELSE IF ~e.meas.fin THEN <<e.prop, "FiniteIntegrand">>
+     ELSE IF NotSmooth(e) THEN <<e.prop, "PiecewiseSmoothIntegrand">>
      ELSE IF e.qerr > QErrMax12 THEN <<"unmeasurable", "QuadratureError">>
      ELSE IF q[1] # 0 \/ Abs(q[2]) > TolInt12 THEN <<e.prop, "FluxZero">>
      ELSE <<"ok", "ok">>
@@ -50,6 +58,7 @@ CircVerdict(e) ==
      ELSE IF Len(e.der.ebrk) # Len(edges) \/ \E k \in 1..Len(edges) : ~SameFracs(Range(e.der.ebrk[k]), EdgeBreaks(scene, ch, edges[k][1], edges[k][2]))
           THEN <<"machinery", "Breaks">>
      ELSE IF ~e.meas.fin THEN <<e.prop, "FiniteIntegrand">>
+     ELSE IF NotSmooth(e) THEN <<e.prop, "PiecewiseSmoothIntegrand">>
      ELSE IF e.qerr > QErrMax12 THEN <<"unmeasurable", "QuadratureError">>
      ELSE LET E == ExpCirc(scene, ch, edges) IN
           IF E = 0 THEN (IF q[1] # 0 \/ Abs(q[2]) > TolInt12 THEN <<e.prop, "CirculationZero">> ELSE <<"ok", "ok">>)
